@@ -456,4 +456,36 @@ PROPS = {
                 "drop calls, Peer reply ok/no-peers/failure, ConnectPeer failing at a position",
         "trusted": [],
     },
+    "C20": {
+        "harness": "c20",
+        "imports": ["Base", "Life", "Check20"],
+        "case_type": "c20_case",
+        "check": "c20_check",
+        "diag": "c20_diag",
+        "timeout_quick": 900,
+        "theories": ["theories/Base.v", "theories/Life.v", "theories/LifeProofs.v", "gen/Facts.v"],
+        "check_theories": ["theories/Check20.v"],
+        "level_text": "Coq theorems over the lifecycle transition system (started flag, live loops, results queued for "
+                      "Wait): for every sequence of starts (succeeding, failing at connect or at the first keep-alive), "
+                      "stops, waits, ticks and pool failures at most one loop is alive and one is alive iff the agent "
+                      "counts as started; a second start while running is refused and changes nothing; a failed start "
+                      "leaves nothing running; stop ends the loop, Wait returns, a new start succeeds; a failed "
+                      "keep-alive ends the loop with its error and allows a restart; each interval sends one keep-alive "
+                      "per live loop; the variant without the flag (the pinned tree) runs two loops. The command-line "
+                      "bound: any accepted interval is below ExpireInterval, computed from the regenerated constants "
+                      "(maxUpdateInterval = ExpireInterval = 2 x KeepaliveInterval). PARTIAL: real timers (time.Tick) "
+                      "and goroutine scheduling are runtime behaviour; the model proves the bookkeeping. Tied to the code "
+                      "by scripted start/stop/wait/pool-failure sequences on the real Agent (25 ms interval) against a "
+                      "counting fake pool, with the number of live loops estimated from the keep-alive rate, and by "
+                      "running the built agent binary with --update-interval at 1s, 5s, 5.001s, 30s, 60s, 119.9s, "
+                      "120s, 121s, 1h.",
+        "level_note": "Trusted: Coq kernel; the keep-alive rate measured over 12 intervals classifies 0/1/2/3 loops "
+                      "(ambiguous measurements are repeated, then dropped); Stop/Wait are issued only when the model "
+                      "says they are enabled (Stop blocks forever with no loop running, which the property does not cover).",
+        "technique": "Coq proof (invariant over an LTS) + computed obligation over regenerated bounds + vm_compute "
+                     "correspondence with the real Agent and the built binary",
+        "rule": "24 sequences of 5-13 operations (start ok / failing at connect / failing at first update, stop, pool "
+                "fails a keep-alive, wait, rate measurement), 6 at a time; 1 command-line case with 9 intervals",
+        "trusted": [],
+    },
 }
